@@ -85,10 +85,12 @@ class Ctx:
         return int(base * self.boost)
 
     # -- correspondence
-    def corr(self, op, line, impl, kind="floats", tol=1e-9, inputs=None, atol=0.0):
+    def corr(self, op, line, impl, kind="floats", tol=1e-9, inputs=None, atol=0.0, post=None):
         """Register one correspondence case. `impl` is the implementation's result:
-        list of floats / string / ('err', name)."""
-        self.cases.append(dict(op=op, line=line, impl=impl, kind=kind, tol=tol, atol=atol, inputs=inputs))
+        list of floats / string / ('err', name).  `line` may be a list of driver lines;
+        then `post(list_of_output_lines)` must turn the model's outputs into the value to
+        compare (used where an un-modelled external, e.g. np.fft, sits between model steps)."""
+        self.cases.append(dict(op=op, line=line, impl=impl, kind=kind, tol=tol, atol=atol, inputs=inputs, post=post))
 
     def skip(self, op, why):
         self.skipped_ops[op] = why
@@ -139,6 +141,17 @@ def _cmp_floats(impl, model, tol, atol):
 
 def compare(case, model_line):
     impl = case["impl"]
+    if case.get("post") is not None:
+        try:
+            val = case["post"](model_line if isinstance(model_line, list) else [model_line])
+        except Exception as ex:
+            return False, "post-processing of model output failed: %r" % ex
+        if isinstance(impl, tuple) and len(impl) == 2 and impl[0] == "err":
+            return (isinstance(val, str) and val == "err:" + impl[1]), "error class: impl %s, model %r" % (impl[1], val)
+        if isinstance(val, str):
+            return (str(impl) == val), "impl %r vs model %r" % (str(impl)[:200], val[:200])
+        implf = [float(v) for v in np.ravel(np.asarray(impl, dtype=float))]
+        return _cmp_floats(implf, [float(v) for v in val], case["tol"], case["atol"])
     if isinstance(impl, tuple) and len(impl) == 2 and impl[0] == "err":
         return (model_line.strip() == "err:" + impl[1]), "error class: impl %s, model %s" % (impl[1], model_line.strip())
     if model_line.startswith("err:"):
@@ -220,7 +233,14 @@ def run(prop_id, tier, seed, replay=None):
     corr_nontrivial = set()
     if corr_err is None and ctx.cases:
         try:
-            outs = lean.run_driver([c["line"] for c in ctx.cases])
+            flat_lines = []
+            spans = []
+            for c in ctx.cases:
+                ls = c["line"] if isinstance(c["line"], list) else [c["line"]]
+                spans.append((len(flat_lines), len(ls), isinstance(c["line"], list)))
+                flat_lines += ls
+            flat_out = lean.run_driver(flat_lines)
+            outs = [flat_out[a:a + k] if is_list else flat_out[a] for (a, k, is_list) in spans]
         except lean.DriverError as ex:
             print(str(ex)[-3000:])
             print("TOOL-FAILURE: Lean driver failed")
@@ -230,11 +250,12 @@ def run(prop_id, tier, seed, replay=None):
             if isinstance(c["impl"], tuple) and c["impl"] and c["impl"][0] == "err":
                 err_hist[c["impl"][1]] = err_hist.get(c["impl"][1], 0) + 1
             else:
-                corr_nontrivial.add((c["op"], o))
+                corr_nontrivial.add((c["op"], str(o)[:400]))
             good, info = compare(c, o)
             if not good:
                 disagreements.append(dict(op=c["op"], line=c["line"], inputs=jsonable(c["inputs"]),
-                                          impl=jsonable(c["impl"]), model=o, info=str(info)))
+                                          impl=jsonable(c["impl"]) if np.size(c["impl"]) < 200 else "<%d values>" % np.size(c["impl"]),
+                                          model=(o if len(str(o)) < 4000 else str(o)[:4000]), info=str(info)))
     if corr_err is not None:
         print(corr_err[-3000:])
         print("TOOL-FAILURE: correspondence harness raised")
@@ -290,7 +311,8 @@ def run(prop_id, tier, seed, replay=None):
 
     # ---- evidence -----------------------------------------------------------
     wall = time.time() - t0
-    samples = [dict(kind="correspondence", op=c["op"], inputs=jsonable(c["inputs"]), impl=jsonable(c["impl"]))
+    samples = [dict(kind="correspondence", op=c["op"], inputs=jsonable(c["inputs"]),
+                    impl=(jsonable(c["impl"]) if np.size(c["impl"]) < 40 else "<%d values>" % np.size(c["impl"])))
                for c in ctx.cases[:: max(1, len(ctx.cases) // 4)][:4]] + ctx.samples
     if not samples:
         samples = [dict(kind="obligation", theorem=n) for n in names[:3]]
